@@ -178,3 +178,5 @@ def run(rep, prog, thorough):
     check_split(rep, prog)
     check_formatters(rep, prog)
     check_file(rep, prog)
+    from ..effects import check_no_memoised
+    check_no_memoised(rep, prog, 'C17.R3.region-decoders', ['io_drawer'], 'results of an earlier decode are reused')
